@@ -817,23 +817,28 @@ class Gen5:
             if not feats:
                 return
             fp, fb = rng.choice(feats)
-            q = rng.random()
-            if q < 0.45:
-                tgt, tag = self.pick(ents, "data_array", block=fb), "featdata/same-block"
-            elif q < 0.7:
-                tgt, tag = self.pick(ents, "data_array", notblock=fb), "featdata/foreign"
-            elif q < 0.84:
-                # a DataFrame of the block: accepted by an untagged / indexed feature, refused by a tagged one
-                tgt, tag = self.pick(ents, "data_frame", block=fb), "featdata/frame-same-block"
-            elif q < 0.92:
-                tgt, tag = self.pick(ents, "data_frame", notblock=fb), "featdata/frame-foreign"
-            else:
-                tgt, tag = self.pick(ents), "featdata/any-kind"
-            if tgt is None:
-                return
-            self.do(["set_role", fp, "data", self.anypath(tgt)], tag)
-            self.do(["role", fp, "data"])
-            self.do(["read", fp + ["data"]])
+            self.featdata_offer(ents, fp, fb)
+
+    def featdata_offer(self, ents, fp, fb):
+        """`feature.data = x` on an existing feature: an array / a data frame of the block or of another one, any entity"""
+        rng = self.rng
+        q = rng.random()
+        if q < 0.4:
+            tgt, tag = self.pick(ents, "data_array", block=fb), "featdata/same-block"
+        elif q < 0.6:
+            tgt, tag = self.pick(ents, "data_array", notblock=fb), "featdata/foreign"
+        elif q < 0.8:
+            # a DataFrame of the block: accepted by an untagged / indexed feature, refused by a tagged one
+            tgt, tag = self.pick(ents, "data_frame", block=fb), "featdata/frame-same-block"
+        elif q < 0.92:
+            tgt, tag = self.pick(ents, "data_frame", notblock=fb), "featdata/frame-foreign"
+        else:
+            tgt, tag = self.pick(ents), "featdata/any-kind"
+        if tgt is None:
+            return
+        self.do(["set_role", fp, "data", self.anypath(tgt)], tag)
+        self.do(["role", fp, "data"])
+        self.do(["read", fp + ["data"]])
 
     def a_feature(self, ents, dims, feats):
         rng = self.rng
@@ -849,8 +854,11 @@ class Gen5:
             da, tag = self.pick(ents), "feature/any-kind"
         if da is None:
             return
-        self.do(["create_feature", tg.paths[0], self.anypath(da), rng.choice(["tagged", "untagged", "indexed"])], tag)
-        self.do(["list", tg.paths[0], "features"])
+        out = self.do(["create_feature", tg.paths[0], self.anypath(da), rng.choice(["tagged", "untagged", "indexed"])], tag)
+        n = len(self.do(["list", tg.paths[0], "features"]).get("ok") or [])
+        if "ok" in out and n and rng.random() < 0.7:
+            # the data link of the new feature is re-pointed right away (an array, a data frame, something foreign)
+            self.featdata_offer(ents, tg.paths[0] + ["features", n - 1], tg.block)
 
     def a_mutate(self, ents, dims, feats):
         rng = self.rng
